@@ -118,7 +118,7 @@ HOSTS_Q = ["fr.lemonde.fr", "co.uk.bbc.co.uk", "com.evil.com", "lemonde.fr", "ww
            "bbc.co.uk", "news.bbc.co.uk", "co.uk", "uk", "kawasaki.jp", "x.kawasaki.jp", "a.x.kawasaki.jp",
            "city.kawasaki.jp", "foo.unknowntld", "fr",
            # an inner label that begins with the text of the suffix; an all-digit leftmost label
-           "company.com", "shop.company.com", "1.bp.evil.com", "bp.evil.com", "my_site.bbc.co.uk"]
+           "company.com", "shop.company.com", "1.bp.evil.com", "bp.evil.com", "my_site.bbc.co.uk", "uk.evil.com"]
 HOSTS_T = HOSTS_Q + ["b.a.x.kawasaki.jp", "a.city.kawasaki.jp", "jp", "com", "xlemonde.fr", "lemonde.frx", "monde.fr",
                      "a.foo.unknowntld", "blogspot.com", "me.blogspot.com", "LeMonde.FR",
                      "shop.com", "news.co.uk.bbc.co.uk", "2.cdn.bbc.co.uk", "cdn.bbc.co.uk", "0.evil.com"]
